@@ -96,6 +96,16 @@ func decodeControl(packet *ber.Packet) (Control, error) {
 	if packet == nil {
 		return nil, fmt.Errorf("%s: packet is nil: %w", op, ErrInvalidParameter)
 	}
+	// a control's type must be a string and its criticality a bool, clients
+	// are free to send anything else.
+	controlTypeOf := func(p *ber.Packet) (string, error) {
+		t, ok := p.Value.(string)
+		if !ok {
+			return "", fmt.Errorf("%s: control type is not a string: %w", op, ErrInvalidParameter)
+		}
+		return t, nil
+	}
+	var err error
 
 	switch len(packet.Children) {
 	case 0:
@@ -104,10 +114,14 @@ func decodeControl(packet *ber.Packet) (Control, error) {
 	case 1:
 		// just type, no critically or value
 		packet.Children[0].Description = "Control Type (" + ControlTypeMap[ControlType] + ")"
-		ControlType = packet.Children[0].Value.(string)
+		if ControlType, err = controlTypeOf(packet.Children[0]); err != nil {
+			return nil, err
+		}
 	case 2:
 		packet.Children[0].Description = "Control Type (" + ControlTypeMap[ControlType] + ")"
-		ControlType = packet.Children[0].Value.(string)
+		if ControlType, err = controlTypeOf(packet.Children[0]); err != nil {
+			return nil, err
+		}
 
 		// Children[1] could be criticality or value (both are optional)
 		// duck-type on whether this is a boolean
@@ -120,10 +134,15 @@ func decodeControl(packet *ber.Packet) (Control, error) {
 		}
 	case 3:
 		packet.Children[0].Description = "Control Type (" + ControlTypeMap[ControlType] + ")"
-		ControlType = packet.Children[0].Value.(string)
+		if ControlType, err = controlTypeOf(packet.Children[0]); err != nil {
+			return nil, err
+		}
 
 		packet.Children[1].Description = "Criticality"
-		Criticality = packet.Children[1].Value.(bool)
+		var ok bool
+		if Criticality, ok = packet.Children[1].Value.(bool); !ok {
+			return nil, fmt.Errorf("%s: control criticality is not a boolean: %w", op, ErrInvalidParameter)
+		}
 
 		packet.Children[2].Description = "Control Value"
 		value = packet.Children[2]
@@ -154,9 +173,16 @@ func decodeControl(packet *ber.Packet) (Control, error) {
 		}
 		value = value.Children[0]
 		value.Description = "Search Control Value"
+		if len(value.Children) < 2 {
+			return nil, fmt.Errorf("%s: paging control value must have a size and a cookie: %w", op, ErrInvalidParameter)
+		}
 		value.Children[0].Description = "Paging Size"
 		value.Children[1].Description = "Cookie"
-		c.PagingSize = uint32(value.Children[0].Value.(int64))
+		pagingSize, ok := value.Children[0].Value.(int64)
+		if !ok {
+			return nil, fmt.Errorf("%s: paging control size is not an integer: %w", op, ErrInvalidParameter)
+		}
+		c.PagingSize = uint32(pagingSize)
 		c.Cookie = value.Children[1].Data.Bytes()
 		value.Children[1].Value = c.Cookie
 		return c, nil
@@ -191,6 +217,9 @@ func decodeControl(packet *ber.Packet) (Control, error) {
 		for _, child := range sequence.Children {
 			if child.Tag == 0 {
 				// Warning
+				if len(child.Children) == 0 {
+					return nil, fmt.Errorf("%s: behera control warning must have a child: %w", op, ErrInvalidParameter)
+				}
 				warningPacket := child.Children[0]
 				val, err := ber.ParseInt64(warningPacket.Data.Bytes())
 				if err != nil {
@@ -246,7 +275,11 @@ func decodeControl(packet *ber.Packet) (Control, error) {
 		c.ControlType = ControlType
 		c.Criticality = Criticality
 		if value != nil {
-			c.ControlValue = value.Value.(string)
+			controlValue, ok := value.Value.(string)
+			if !ok {
+				return nil, fmt.Errorf("%s: control value is not a string: %w", op, ErrInvalidParameter)
+			}
+			c.ControlValue = controlValue
 		}
 		return c, nil
 	}
